@@ -44,7 +44,7 @@ def _ang_eq_inverse(env, rot, tilt, psi, phi, theta, ps):
     return mat_eq(env, R_ZYZ_intrinsic(env, rot, tilt, psi), mat_T(R_zxz(env, phi, theta, ps)))
 
 
-def h_export(env, version=3.1, ids="a", tomo_format="", subtomo_format="", binning_sym=True, via="class", object_version=None):
+def h_export(env, version=3.1, ids="a", tomo_format="", subtomo_format="", binning_sym=True, via="class", object_version=None, index="default"):
     cm = env.module("cryomotl")
     rows = _motl_rows(env, IDS[ids])
     df = mk_df(env, rows)
@@ -55,6 +55,8 @@ def h_export(env, version=3.1, ids="a", tomo_format="", subtomo_format="", binni
     else:
         rm = cm.emmotl2relion(df, relion_version=version, pixel_size=px, binning=bn)
         # emmotl2relion first calls update_coordinates: the complete position is unchanged by it (C05)
+    if index == "gaps" and via == "class":
+        rm.df.index = [5, 2, 9][: len(rows)]          # row labels left by remove_feature / a subset without reset: a reachable state of the list
     if object_version is not None:
         # an object of one RELION version exported as another one
         rdf = rm.create_relion_df(tomo_format=tomo_format, subtomo_format=subtomo_format, version=version)
@@ -250,7 +252,7 @@ def h_via_file(env, version=3.1, optics=True, explicit=False):
         env.check("file_halfset_parity_%d" % i, env.true() if int(a["subtomo_id"]) % 2 == int(r["subtomo_id"]) % 2 else env.not_(env.true()))
 
 
-def h_import_file(env, version=3.1, optics=True, entry="class"):
+def h_import_file(env, version=3.1, optics=True, entry="class", reexport=False):
     """RELION data written by the harness' own writer (standard layout: data_optics first, then data_particles; origin shifts
     in Angstrom for >= 3.1, in pixels for 3.0; no rlnPixelSize column), imported WITHOUT telling the pixel size when an
     optics block is there.  Concrete cells (exact in 6 decimals); pixel size / half-set pattern by solver forks."""
@@ -301,6 +303,19 @@ def h_import_file(env, version=3.1, optics=True, entry="class"):
         env.check("tomo_class_subtomo_%d" % i, env.true() if (a["tomo_id"] == t and a["class"] == cl and a["geom3"] == sn) else env.not_(env.true()))
         env.check("halfset_parity_%d" % i, env.true() if int(a["subtomo_id"]) % 2 == hs[i] % 2 else env.not_(env.true()))
     env.check("subtomo_ids_unique", env.true() if len(set(float(v) for v in mdf["subtomo_id"])) == len(parts) else env.not_(env.true()))
+    if entry == "class" and reexport:
+        # write the imported list back with the ORIGINAL RELION entries and read that file again: every particle keeps its
+        # tomogram, its subtomogram number, its class and its pose
+        p2 = env.real_path("reexport.star")
+        obj.write_out(p2, use_original_entries=True, write_optics=optics)
+        back = cm.RelionMotl(p2, **kw).df
+        env.check("reexport_row_count", env.true() if back.shape[0] == len(parts) else env.not_(env.true()))
+        if back.shape[0] == len(parts):
+            for i in range(len(parts)):
+                a = {k: float(mdf[k].iloc[i]) for k in COLS}
+                b = {k: float(back[k].iloc[i]) for k in COLS}
+                same = all(abs((a[c] + a["shift_" + c]) - (b[c] + b["shift_" + c])) <= 1e-4 for c in "xyz") and a["tomo_id"] == b["tomo_id"] and a["class"] == b["class"] and a["geom3"] == b["geom3"]
+                env.check("reexport_with_original_entries_keeps_particle_%d" % i, env.true() if same else env.not_(env.true()))
 
 
 class _PlainEnv:
@@ -336,6 +351,8 @@ def jobs(tier, seed):
     j += [("h_export", {"version": 3.1, "ids": "b", "tomo_format": "TS_$xxx.rec", "subtomo_format": "subtomo/T_$xxxx/T$xxxx_$yyyyy_7.40A.mrc"}),
           ("h_export", {"version": 4.0, "ids": "b", "tomo_format": "TS_$xxx", "subtomo_format": "TS_$xxx/$y"}),
           ("h_export", {"version": 3.1, "ids": "a", "via": "emmotl2relion"}),
+          ("h_export", {"version": 3.1, "ids": "b", "index": "gaps", "tomo_format": "TS_$xxx.rec", "subtomo_format": "subtomo/T_$xxxx/T$xxxx_$yyyyy_7.40A.mrc"}),
+          ("h_export", {"version": 4.0, "ids": "a", "index": "gaps", "tomo_format": "TS_$xxx", "subtomo_format": "TS_$xxx/$y"}),
           ("h_export", {"version": 4.0, "ids": "a", "object_version": 3.0, "tomo_format": "TS_$xxx", "subtomo_format": "TS_$xxx/$y"}),
           ("h_export", {"version": 3.0, "ids": "b", "object_version": 4.0}),
           ("h_import", {"version": 3.1, "ids": "a", "names": "strings_dirs"}),
@@ -350,7 +367,8 @@ def jobs(tier, seed):
     j += [("h_via_file", {"version": 3.1, "optics": True}), ("h_via_file", {"version": 4.0, "optics": True}), ("h_via_file", {"version": 3.0, "optics": False}),
           ("h_via_file", {"version": 3.1, "optics": False, "explicit": True}),
           ("h_import_file", {"version": 3.1, "optics": True}), ("h_import_file", {"version": 4.0, "optics": True, "entry": "relion2emmotl"}),
-          ("h_import_file", {"version": 3.0, "optics": False}), ("h_import_file", {"version": 4.0, "optics": False})]
+          ("h_import_file", {"version": 3.0, "optics": False}), ("h_import_file", {"version": 4.0, "optics": False}),
+          ("h_import_file", {"version": 3.1, "optics": True, "reexport": True}), ("h_import_file", {"version": 4.0, "optics": True, "reexport": True})]
     if tier == "thorough":
         j += [("h_via_file", {"version": 4.0, "optics": False}), ("h_via_file", {"version": 4.0, "optics": True, "explicit": True})]
         for v in (3.0, 3.1, 4.0):
